@@ -89,6 +89,36 @@ variant("quit-helper",
 		c.handleQuit()"""),
   ("conn.go", "func (c *Conn) Server() *Server {", "func (c *Conn) handleQuit() {\n	c.writeResponse(221, EnhancedCode{2, 0, 0}, \"Bye\")\n	c.Close()\n}\n\nfunc (c *Conn) Server() *Server {"))
 
+variant("refusechunk-helper-correct",
+  ("conn.go", """		// RFC 3030: the chunk of a refused BDAT must be discarded, it
+		// must not be interpreted as commands.
+		io.Copy(ioutil.Discard, io.LimitReader(c.text.R, int64(size)))
+		c.writeResponse(502, EnhancedCode{5, 5, 1}, "Missing RCPT TO command.")
+		return""", """		c.refuseChunk(size, 502, EnhancedCode{5, 5, 1}, "Missing RCPT TO command.")
+		return"""),
+  ("conn.go", """			io.Copy(ioutil.Discard, io.LimitReader(c.text.R, int64(size)))
+			c.writeResponse(501, EnhancedCode{5, 5, 4}, "Unknown BDAT argument")
+			return""", """			c.refuseChunk(size, 501, EnhancedCode{5, 5, 4}, "Unknown BDAT argument")
+			return"""),
+  ("conn.go", """		c.writeResponse(552, EnhancedCode{5, 3, 4}, "Max message size exceeded")
+
+		// Discard chunk itself without passing it to backend.
+		io.Copy(ioutil.Discard, io.LimitReader(c.text.R, int64(size)))
+
+		c.reset()
+		return""", """		c.refuseChunk(size, 552, EnhancedCode{5, 3, 4}, "Max message size exceeded")
+		c.reset()
+		return"""),
+  ("conn.go", "// ErrDataReset is returned by Reader pased", "func (c *Conn) refuseChunk(size uint64, code int, ec EnhancedCode, msg string) {\n	io.Copy(ioutil.Discard, io.LimitReader(c.text.R, int64(size)))\n	c.writeResponse(code, ec, msg)\n}\n\n// ErrDataReset is returned by Reader pased"))
+variant("greet-reply-helper",
+  ("conn.go", """	if !enhanced {
+		c.writeResponse(250, EnhancedCode{2, 0, 0}, fmt.Sprintf("Hello %s", domain))
+		return
+	}""", """	if !enhanced {
+		c.ok(fmt.Sprintf("Hello %s", domain))
+		return
+	}"""),
+  ("conn.go", "func (c *Conn) Server() *Server {", "func (c *Conn) ok(msg string) {\n	c.writeResponse(250, EnhancedCode{2, 0, 0}, msg)\n}\n\nfunc (c *Conn) Server() *Server {"))
 names = sys.argv[1:] or list(V)
 env = dict(os.environ, GOFLAGS='-mod=mod', GOPROXY='off', GOSUMDB='off', GOTOOLCHAIN='local')
 for name in names:
